@@ -45,6 +45,55 @@ def pat_str(p):
     return t.replace(',', ', ').replace('|', ' | ')
 
 
+def small_form_arith(ctx, r2, need=4):
+    """R14.2 (also reported as R01.8: an overflow here is a panic of an accepted program): raw machine arithmetic that can
+    overflow on the small form must be excluded by an earlier arm of the same match"""
+    items = ctx.ast['files'].get(FILE)
+    if not items:
+        r2.fail('anchor/file', FILE, 'lazy_bigint.rs not parsed')
+        return
+    impls = [it for it in items if it.get('k') == 'impl']
+
+    def fns_of(im):
+        return [f for f in im['items'] if f.get('k') == 'fn']
+    RISKY_BIN = {'/': ('-1',), '%': ('-1',)}
+    for im in impls:
+        tn = trait_name(im) or 'inherent'
+        for fn in fns_of(im):
+            for m, ps in find_nodes(fn['body'], lambda y: y.get('k') == 'match'):
+                earlier = []
+                for a in m['arms']:
+                    ap = pat_str(a['pat'])
+                    for n, ps2 in find_nodes(a['body'], is_short_ctor):
+                        arg = n['args'][0]
+                        risk = None
+                        if arg.get('k') == 'binary' and arg['op'] in RISKY_BIN:
+                            risk = arg['op']
+                        elif arg.get('k') == 'call' and arg['func'].get('k') == 'path' and arg['func']['path'] in ('div_floor', 'div_ceil'):
+                            risk = arg['func']['path']
+                        elif arg.get('k') == 'unary' and arg['op'] == '-':
+                            risk = 'neg'
+                        elif arg.get('k') == 'mcall' and arg['method'] == 'abs':
+                            risk = 'abs'
+                        elif arg.get('k') == 'mcall' and arg['method'] in ('mod_floor', 'div_floor', 'div_ceil', 'rem_euclid', 'div_euclid', 'div_rem', 'div_mod_floor'):
+                            # num_integer / core division-family methods on i64 compute `self % other` or `self / other` inside:
+                            # (i64::MIN, -1) overflows there exactly as with the bare operator
+                            risk = arg['method']
+                        if risk is None:
+                            continue
+                        if risk in ('neg', 'abs'):
+                            guarded = any('SmallInt::MIN' in e or 'i64::MIN' in e for e in earlier)
+                        else:
+                            # (MIN, -1) must be excluded: an earlier arm matching a right operand of -1, or the MIN left operand
+                            guarded = any(re.search(r'Short\(-1( \| 1)?\)|Short\(1 \| -1\)|SmallInt::MIN|i64::MIN', e) for e in earlier)
+                        r2.inst({'impl': tn, 'fn': fn['name'], 'arm': ap, 'op': risk, 'guarded_by_earlier_arm': guarded}, ok=guarded, kind=(tn, fn['name'], ap, risk))
+                        if not guarded:
+                            r2.fail('%s::%s/%s' % (tn, fn['name'], risk), '%s:%d' % (FILE, n['line']), 'Short(%s ..) on raw i64 operands: (i64::MIN, -1) / i64::MIN overflows (panic in debug, wrong value in release)' % risk)
+                    earlier.append(ap)
+    r2.need(need)
+
+
+
 def run(ctx):
     ast = ctx.ast
     ctx.explanation = ('Syntax-tree rules over every constructor site, match arm and operator application of LazyBigint and over the int builtin '
@@ -129,37 +178,7 @@ def run(ctx):
 
     # ---------------- R14.2
     r2 = ctx.rule('R14.2', 'small-form machine arithmetic that can overflow is guarded by earlier arms')
-    RISKY_BIN = {'/': ('-1',), '%': ('-1',)}
-    for im in impls:
-        tn = trait_name(im) or 'inherent'
-        for fn in fns_of(im):
-            for m, ps in find_nodes(fn['body'], lambda y: y.get('k') == 'match'):
-                earlier = []
-                for a in m['arms']:
-                    ap = pat_str(a['pat'])
-                    for n, ps2 in find_nodes(a['body'], is_short_ctor):
-                        arg = n['args'][0]
-                        risk = None
-                        if arg.get('k') == 'binary' and arg['op'] in RISKY_BIN:
-                            risk = arg['op']
-                        elif arg.get('k') == 'call' and arg['func'].get('k') == 'path' and arg['func']['path'] in ('div_floor', 'div_ceil'):
-                            risk = arg['func']['path']
-                        elif arg.get('k') == 'unary' and arg['op'] == '-':
-                            risk = 'neg'
-                        elif arg.get('k') == 'mcall' and arg['method'] == 'abs':
-                            risk = 'abs'
-                        if risk is None:
-                            continue
-                        if risk in ('neg', 'abs'):
-                            guarded = any('SmallInt::MIN' in e or 'i64::MIN' in e for e in earlier)
-                        else:
-                            # (MIN, -1) must be excluded: an earlier arm matching a right operand of -1, or the MIN left operand
-                            guarded = any(re.search(r'Short\(-1( \| 1)?\)|Short\(1 \| -1\)|SmallInt::MIN|i64::MIN', e) for e in earlier)
-                        r2.inst({'impl': tn, 'fn': fn['name'], 'arm': ap, 'op': risk, 'guarded_by_earlier_arm': guarded}, ok=guarded, kind=(tn, fn['name'], ap, risk))
-                        if not guarded:
-                            r2.fail('%s::%s/%s' % (tn, fn['name'], risk), '%s:%d' % (FILE, n['line']), 'Short(%s ..) on raw i64 operands: (i64::MIN, -1) / i64::MIN overflows (panic in debug, wrong value in release)' % risk)
-                    earlier.append(ap)
-    r2.need(4)
+    small_form_arith(ctx, r2)
 
     # ---------------- R14.3 operator-trait agreement  /  R14.7 swapped or-patterns
     r3 = ctx.rule('R14.3', 'an impl of Op/OpAssign applies only Op to its operands')
